@@ -537,26 +537,29 @@ def run(tier, pid="C19"):
             raise tlc.MachineryError("C19 su_coded.cfg: expected SortNoTypeError to be violated, got %r %r" % (r.violated, r.error))
         rep.add_tlc(r, "su_coded.cfg (asCoded: SortNoTypeError violated as expected)")
 
-        mc = "su_mc5.cfg" if tier == "quick" else "su_mc6.cfg"
-        r = tlc.run_tlc("pure", "MCSuites", mc, workers=8, timeout=3000)
-        tlc.require_ok(r, "C19 " + mc)
-        rep.add_tlc(r, mc)
+        for mc in ("su_mc4.cfg",) if tier == "quick" else ("su_mc5.cfg", "su_mc6.cfg"):
+            r = tlc.run_tlc("pure", "MCSuites", mc, workers=8, timeout=3000)
+            tlc.require_ok(r, "C19 " + mc)
+            rep.add_tlc(r, mc)
 
-        exp_cfg = "su_exp4.cfg" if tier == "quick" else "su_exp5.cfg"
-        NIDS[0] = 3
-        r = tlc.run_tlc("pure", "MCSuites", exp_cfg, workers=8, timeout=3000)
-        tlc.require_ok(r, "C19 " + exp_cfg)
-        rep.add_tlc(r, exp_cfg)
         nrows = 0
         every = 9 if tier == "quick" else 40
         subs = []
-        for n, row in enumerate(tlc.exported(r)):
-            nrows += 1
-            replay_row(rep, row, n, exp_cfg, prog=(tmpdir, rnd) if n % every == 3 else None)
-            if len(row["leaves"]) >= 3 and len(subs) < 3 and n % 1237 == 11 and nest(row["nodes"])["k"] != "holder":
-                subs.append((row, n))
-        if nrows != r.distinct:
-            raise tlc.MachineryError("C19 %s: %d rows exported for %d distinct states" % (exp_cfg, nrows, r.distinct))
+        NIDS[0] = 3
+        for exp_cfg in ("su_exp4.cfg", "su_exps5.cfg") if tier == "quick" else ("su_exp5.cfg", "su_exps6.cfg"):
+            r = tlc.run_tlc("pure", "MCSuites", exp_cfg, workers=8, timeout=3000)
+            tlc.require_ok(r, "C19 " + exp_cfg)
+            rep.add_tlc(r, exp_cfg)
+            got = 0
+            for n, row in enumerate(tlc.exported(r)):
+                got += 1
+                with_prog = bool(row["filt"]) and n % every == 3
+                replay_row(rep, row, n, exp_cfg, prog=(tmpdir, rnd) if with_prog else None)
+                if row["filt"] and len(row["leaves"]) >= 3 and len(subs) < 3 and n % 1237 == 11 and nest(row["nodes"])["k"] != "holder":
+                    subs.append((row, n))
+            if got != r.distinct:
+                raise tlc.MachineryError("C19 %s: %d rows exported for %d distinct states" % (exp_cfg, got, r.distinct))
+            nrows += got
         for row, n in subs:
             for ids in (None, row["filt"][rnd.randrange(len(row["filt"]))]):
                 bad = check_subprocess(row, n % 2, tmpdir, ids)
